@@ -393,6 +393,35 @@ Definition node_occurrences (n : node) : list occ := filter is_proper_node (occu
 
 Definition ev_occ {R} (e : event R) : occ := (ev_path e, ev_subj e).
 
+(** what the callback of the object [s] at [p] must receive: the folded
+    results of the objects it owns, slot by slot *)
+Definition expected_payload {R} (cb : callbacks R) (p : path) (s : subject) : payload R :=
+  match s with
+  | SubNode n => node_payload cb (result cb) p n
+  | SubArgs a => PArgnlist (pargs_payload (result cb) p a)
+  end.
+(** the value the object [s] at [p] contributes to its owner *)
+Definition subject_result {R} (cb : callbacks R) (p : path) (s : subject) : R :=
+  match s with
+  | SubNode n => result cb p n
+  | SubArgs a => cb_pargs cb p a (pargs_payload (result cb) p a)
+  end.
+(** applying the callback an event names to the keyword arguments it logged *)
+Definition callback_result {R} (cb : callbacks R) (e : event R) : option R :=
+  let p := ev_path e in
+  match ev_kind e, ev_subj e, ev_pay e with
+  | KChars, SubNode n, PNone => Some (cb_chars cb p n)
+  | KComment, SubNode n, PNone => Some (cb_comment cb p n)
+  | KGroup, SubNode n, PNodelist l => Some (cb_group cb p n l)
+  | KMacro, SubNode n, PArguments a => Some (cb_macro cb p n a)
+  | KEnv, SubNode n, PArgsBody a b => Some (cb_env cb p n a b)
+  | KSpecials, SubNode n, PArguments a => Some (cb_specials cb p n a)
+  | KMath, SubNode n, PNodelist l => Some (cb_math cb p n l)
+  | KList, SubNode n, PNodelist l => Some (cb_list cb p n l)
+  | KPArgs, SubArgs a, PArgnlist l => Some (cb_pargs cb p a l)
+  | _, _, _ => None
+  end.
+
 (** [q] is strictly below [p] *)
 Definition strictly_below (p q : path) : Prop := exists x d, q = p ++ x :: d.
 
